@@ -495,7 +495,7 @@ fn enumerate_below_loader(workload: &Workload, via: Via, rng: &mut Rng, stats: &
     // read faults: reuse the enumeration with no lookup faults
     let reads_only = Outcome { finds: 0, ..clone_counts(&base) };
     for pl in single_fault_plans(&reads_only, &sizes, &bounds, rng, stats) {
-        plans.push((pl, if rng.chance(1, 4) { Chunking::draw(rng) } else { Chunking::NONE }));
+        plans.push((pl, if rng.chance(1, 4) { Chunking::draw_for_generated(rng) } else { Chunking::NONE }));
     }
     for _ in 0..4 {
         let mut pl = FaultPlan::default();
@@ -508,9 +508,9 @@ fn enumerate_below_loader(workload: &Workload, via: Via, rng: &mut Rng, stats: &
                 pl.reads.insert(h, (*rng.pick(&Kind::READ), rng.usize(len + 1)));
             }
         }
-        plans.push((pl, Chunking::draw(rng)));
+        plans.push((pl, Chunking::draw_for_generated(rng)));
     }
-    let c = Chunking::draw(rng);
+    let c = Chunking::draw_for_generated(rng);
     if c.is_benign_noise() {
         plans.push((FaultPlan::default(), c));
     }
@@ -628,7 +628,7 @@ impl Prop for C39 {
         let n = plans.len();
         for i in 0..n {
             if rng.chance(1, 4) {
-                let c = Chunking::draw(&mut rng);
+                let c = if matches!(workload, Workload::Graph(_)) { Chunking::draw_for_generated(&mut rng) } else { Chunking::draw(&mut rng) };
                 if c.is_benign_noise() {
                     plans.push((plans[i].0.clone(), c));
                 }
@@ -648,12 +648,12 @@ impl Prop for C39 {
                     p.reads.insert(h, (if rng.chance(1, 2) { *rng.pick(&Kind::READ) } else { *rng.pick(&Kind::TAIL) }, rng.usize(len + 1)));
                 }
             }
-            plans.push((p, Chunking::draw(&mut rng)));
+            plans.push((p, if matches!(workload, Workload::Graph(_)) { Chunking::draw_for_generated(&mut rng) } else { Chunking::draw(&mut rng) }));
             stats.inc("multi_fault_plans");
         }
         // benign only
         for _ in 0..3 {
-            let c = Chunking::draw(&mut rng);
+            let c = if matches!(workload, Workload::Graph(_)) { Chunking::draw_for_generated(&mut rng) } else { Chunking::draw(&mut rng) };
             if c.is_benign_noise() {
                 plans.push((FaultPlan::default(), c));
                 stats.inc("benign_only_plans");
